@@ -6,6 +6,8 @@ import DracoProofs.BuildersSpec
 import DracoProofs.StripsGeometry
 import DracoModel.C14Check
 import DracoProofs.C14Verify
+import DracoProofs.C14Strips
+import DracoProofs.C14Cleanup
 import DracoProps.C13
 /-
   C14 — mesh-building and clean-up utilities preserve the described geometry.
@@ -51,8 +53,10 @@ import DracoProps.C13
   IMPLEMENTATION's result) demands no more than what is proved of the model:
     * `oracle_accepts_dedupValues`, `oracle_accepts_dedupPointIds`, `oracle_accepts_dedupBoth`,
       `oracle_accepts_buildMesh`, `oracle_accepts_buildPointCloud`: every demanded clause evaluates to
-      `true` on (input, model's result) for every valid / well-formed input.  (Not proved for the
-      clean-up and strip clauses.)
+      `true` on (input, model's result) for every valid / well-formed input;
+    * `oracle_accepts_cleanup` (all 16 option sets, success and error status) and
+      `oracle_accepts_strips` (both modes) likewise.
+  `cleanup_idempotent`: a second `MeshCleanup::Cleanup` with the same options returns its input.
 -/
 namespace Draco
 
@@ -571,5 +575,41 @@ theorem strips_describe_unconditional (restart : Bool) (g : Geometry) (hv : g.va
       List.Forall₂ Strips.FaceRot (Strips.triangles restart s) l ∧
       List.Forall₂ Cleanup.TriRot ((Strips.triangles restart s).map g.triangleOf) (l.map g.triangleOf) :=
   strips_describe strips_createSymm restart g hv hn s h
+
+/-- every clause the check demands of `MeshCleanup::Cleanup` (all 16 option sets; result or error
+    status) holds of the model's answer: `valid`, `only-input-triangles`,
+    `documented-removals-only`, `no-degenerate-face-left`, `no-duplicate-face-left`,
+    `nothing-unused-left`, `points-and-values-kept`, `status` -/
+theorem oracle_accepts_cleanup (o : CleanupOpts) (g : Geometry) (hv : g.valid = true) (hm : g.isMesh = true) :
+    (C14.verifyCleanup o g (Cleanup.run o g)).allTrue :=
+  C14.verifyCleanup_model o g hv hm
+
+example : (C14.verifyCleanup {} exCleanup (Cleanup.run {} exCleanup)).allTrue :=
+  oracle_accepts_cleanup {} exCleanup (by decide) (by decide)
+
+example : (C14.verifyCleanup { removeDegeneratedFaces := false, removeDuplicateFaces := false } exNoPosition
+    (Cleanup.run { removeDegeneratedFaces := false, removeDuplicateFaces := false } exNoPosition)).allTrue :=
+  oracle_accepts_cleanup _ exNoPosition (by decide) (by decide)
+
+/-- every clause the check demands of a strip stream (`indices`, `describes`; both output modes)
+    holds of the model's stream -/
+theorem oracle_accepts_strips (restart : Bool) (g : Geometry) (hv : g.valid = true)
+    (hn : g.numPoints ≤ Strips.restartIndex) :
+    (C14.verifyStrips restart g (Strips.generate? restart g)).allTrue :=
+  C14.verifyStrips_model strips_createSymm restart g hv hn
+
+example : (C14.verifyStrips true exStrip (Strips.generate? true exStrip)).allTrue ∧
+    (C14.verifyStrips false exStrip (Strips.generate? false exStrip)).allTrue :=
+  ⟨oracle_accepts_strips true exStrip (by decide) (by decide),
+   oracle_accepts_strips false exStrip (by decide) (by decide)⟩
+
+/-- **`MeshCleanup::Cleanup` is idempotent**: running it again with the same options on its own
+    result changes nothing (every option subset) -/
+theorem cleanup_idempotent (o : CleanupOpts) (g g' : Geometry) (hv : g.valid = true)
+    (h : Cleanup.run o g = some g') : Cleanup.run o g' = some g' :=
+  C14.run_idempotent hv h
+
+example : ∃ g', Cleanup.run {} exCleanup = some g' ∧ g' ≠ exCleanup ∧ Cleanup.run {} g' = some g' :=
+  ⟨_, rfl, by decide, cleanup_idempotent {} exCleanup _ (by decide) rfl⟩
 
 end Draco
